@@ -10,12 +10,12 @@ def run(tier, seed):
     res = core.Result("C18", tier, seed, level="fault_enumeration")
     q = tier == "quick"
     jobs = []
-    for t in range(12):
+    for t in list(range(12)) + [14]:
         jobs.append(Job("c18", "asan", "spqlios-fma", {"mode": "trunc", "tfrom": t, "tto": t, "seed": seed}, env=ENV, label="trunc type %d" % t))
     for t in (12, 13):   # cloud / secret key sets (~33 KB): every offset in text sections and around every boundary, every 16th interior offset in quick, all in thorough
         for s2 in range(2 if q else 1):
             jobs.append(Job("c18", "asan", "spqlios-fma", {"mode": "trunc", "tfrom": t, "tto": t, "seed": seed + s2, "stride": 32 if q else 1}, env=ENV, label="trunc type %d (%d)" % (t, s2)))
-    for t in range(14):
+    for t in range(15):
         jobs.append(Job("c18", "asan", "spqlios-fma", {"mode": "corrupt", "tfrom": t, "tto": t, "seed": seed}, env=ENV, label="corrupt type %d" % t))
     jobs.append(Job("c18", "asan", "spqlios-fma", {"mode": "subst", "seed": seed}, env=ENV, label="subst"))
     # the same small-object families on the project's optimised build (no sanitizer): exit status only
@@ -32,7 +32,7 @@ def run(tier, seed):
     if hang:
         res.inconclusive.append({"reason": "%d children hit the 10 s alarm" % hang})
     res.exhaustive = not q
-    res.rule = ("Fault enumeration, one forked child per fault: (a) every proper prefix of the export of a small-parameter instance of each of the 14 object types (every byte offset; for the ~33 KB cloud/secret key sets every "
+    res.rule = ("Fault enumeration, one forked child per fault: (a) every proper prefix of the export of a small-parameter instance of each of the 15 exportable object kinds (14 types + gate-API ciphertext) (every byte offset; for the ~33 KB cloud/secret key sets every "
                 "offset in text sections and near boundaries, the last 40 bytes, and every 32nd interior offset in quick / all in thorough); (b) every ordered pair export-of-A fed to importer-of-B (A != B); (c) every single-byte "
                 "corruption (+1, ^0x20, ^0x80) of every byte of every section title line, property name and binary type tag; all on both transports, sanitizer (ASan+UBSan subset) build, plus the small families on the optim build. "
                 "Accepted outcomes: SIGABRT; NULL->method() dereference on the missing text section; C++ stream left in failed state; a returned object equal to the import of the intact export (e.g. final newline missing) or, for "
